@@ -199,6 +199,71 @@ Proof.
   reflexivity.
 Qed.
 
+Definition latest_or_upper (m : memory) : ccase := match m_latest m with Some c => c | None => Upper end.
+Definition all_refuted (n : pname) (m : memory) : bool := forallb (refuted m) (opts n).
+
+Lemma refute_latest m raw : m_latest (refute m raw) = m_latest m.
+Proof. unfold refute. destruct (first_letter_lower raw); reflexivity. Qed.
+
+Lemma all_refuted_refute n m raw : all_refuted n m = true -> all_refuted n (refute m raw) = true.
+Proof.
+  unfold all_refuted. induction (opts n) as [|c l IH]; cbn; [reflexivity|].
+  intro F. apply andb_true_iff in F as [F1 F2]. rewrite (refute_monotone _ _ _ F1). cbn. apply IH. exact F2.
+Qed.
+
+(** what one token may become under the case [L] *)
+Definition recased (L : ccase) (t o : str * bool) : Prop := o = t \/ o = (apply L (fst t), snd t).
+
+(** after the verdict is frozen every reported token is rewritten to the frozen case *)
+Lemma frozen_rest n ig ts : forall m out k,
+  all_refuted n m = true ->
+  pass_from n Consistent ig m ts = (out, k) ->
+  Forall2 (recased (latest_or_upper m)) ts out.
+Proof.
+  induction ts as [|t ts IH]; intros m out k F H; cbn in H.
+  - inversion H; subst. constructor.
+  - destruct (eval_tok n Consistent ig m t) as [m' r] eqn:E.
+    destruct (pass_from n Consistent ig m' ts) as [out' k'] eqn:P.
+    unfold eval_tok in E. destruct (mem (lower (fst t)) ig).
+    + inversion E; subst. inversion H; subst. constructor; [left; reflexivity|]. eapply IH; eassumption.
+    + destruct (is_empty (fst t) || snd t) eqn:G.
+      * unfold handle in E. rewrite G in E. inversion E; subst. inversion H; subst.
+        constructor; [left; reflexivity|]. eapply IH; eassumption.
+      * rewrite (consistent_frozen n m (fst t) (snd t) G F) in E.
+        fold (latest_or_upper m) in E. unfold handle in E. rewrite G in E.
+        assert (F' : all_refuted n (refute m (fst t)) = true) by (apply all_refuted_refute; exact F).
+        assert (L' : latest_or_upper (refute m (fst t)) = latest_or_upper m)
+          by (unfold latest_or_upper; rewrite refute_latest; reflexivity).
+        destruct (str_eqb (apply (latest_or_upper m) (fst t)) (fst t)); inversion E; subst; inversion H; subst.
+        -- constructor; [left; reflexivity|]. rewrite <- L'. eapply IH; eassumption.
+        -- constructor; [right; reflexivity|]. rewrite <- L'. eapply IH; eassumption.
+Qed.
+
+(** [consistent]: all the fixes of one crawl re-case to one and the same case. *)
+Theorem consistent_single_case n ig ts : forall m out k,
+  pass_from n Consistent ig m ts = (out, k) ->
+  exists L, Forall2 (recased L) ts out.
+Proof.
+  induction ts as [|t ts IH]; intros m out k H; cbn in H.
+  - inversion H; subst. exists Upper. constructor.
+  - destruct (eval_tok n Consistent ig m t) as [m' r] eqn:E.
+    destruct (pass_from n Consistent ig m' ts) as [out' k'] eqn:P.
+    destruct r as [f|].
+    + (* a report: the verdict is frozen from here on *)
+      unfold eval_tok in E. destruct (mem (lower (fst t)) ig); [discriminate|].
+      unfold handle in E. destruct (is_empty (fst t) || snd t) eqn:G; [discriminate|].
+      destruct (filter (fun c => negb (refuted (refute m (fst t)) c)) (opts n)) as [|c cs] eqn:Fl; [|discriminate].
+      assert (F : all_refuted n (refute m (fst t)) = true).
+      { unfold all_refuted. clear - Fl. induction (opts n) as [|c l IHl]; cbn in *; [reflexivity|].
+        destruct (refuted (refute m (fst t)) c); cbn in *; [apply IHl; exact Fl|discriminate]. }
+      fold (latest_or_upper (refute m (fst t))) in E.
+      destruct (str_eqb (apply (latest_or_upper (refute m (fst t))) (fst t)) (fst t)); [discriminate|].
+      inversion E; subst. inversion H; subst.
+      exists (latest_or_upper (refute m (fst t))). constructor; [right; reflexivity|].
+      eapply frozen_rest; eassumption.
+    + inversion H; subst. destruct (IH _ _ _ P) as [L HL]. exists L. constructor; [left; reflexivity|exact HL].
+Qed.
+
 Definition tok (s : str) : str * bool := (s, false).
 
 (** One crawl is NOT enough for [consistent] with the extended option list (CP02, CP05):
